@@ -29,7 +29,7 @@ LEGEND = {
              'ba op var other n value failat (op 0 default-construct 1 construct(n,v) 2 copy-construct 3 assign 4 [] write 5 [] read 6 data() write 7 resize 8 reserve 9 push_back 10 pop_back 11 clear 12 compare 13 iterate 14 destroy 15 write through end()-1 16 write through begin() 17 end() then begin() then fill 18 read through a const reference; failat = k-th allocation fails)',
     'masked': 'knob.tape kind seed (0 random 1 zero 2 ones 3 const 4 period2 5 period3 6 counter 7 adversarial); w.* word ops (word, shares/other, size, seed); s.* state ops (state, shares|round, fresh-preserve, seed); k.key which how seed; a.aead alg mlen adlen tamper seed rerandomize (0 never 1 before first use 2 between encrypt and decrypt 3 both 4/5 = 1/2 with the library\'s own source); knob.page 1 = inputs/outputs and every word/state against guard pages; knob.unhealthy 1 = ascon_trng_init/_reseed report failure while values still flow',
     'keystore': 'key slot alg keyseed home; enc slot mlen adlen seed; dec slot mlen adlen seed tamper; save slot; restart slot where (bit0 other memory, bit1 dirty); free slot; siv alg mlen adlen seed',
-    'cppobj': 'new obj class alg how keyseed (how 0 default 1 key ctor 2 NULL key 3 ISAP saved key 4 ISAP len 0); setkey obj how seed (0 full 1 zero-len NULL 2 zero-len non-NULL 3 saved ISAP key 4 length 7 then full); '
+    'cppobj': 'knob.rngdead r (operations at index % 8 == r run with the system entropy source dead; 99 = never); new obj class alg how keyseed (how 0 default 1 key ctor 2 NULL key 3 ISAP saved key 4 ISAP len 0); setkey obj how seed (0 full 1 zero-len NULL 2 zero-len non-NULL 3 saved ISAP key 4 length 7 then full); '
               'enc|dec obj mlen adlen seed overload [tamper]; setnonce obj len seed; setcounter obj n; savekey|randomize|clear|del obj; hnew h kind how namelen customlen seed; hupd h overload len seed; hout h overload len; hcopy dst src; hassign dst src; hpad|hreset|hdel h; hdigest alg len seed; helper flags n shape seed (byte-array helpers vs the C functions; shape 0 clean 1 white space 2 illegal character 3 odd 4 mixed case 5 empty)',
     'threads': 'knob.threads n; knob.sched mode rate seed changepoints (mode 0 Bernoulli 1/rate, 1 change points); op thread kind mlen adlen seed flags (bit0 shared constant inputs, bits1-2 == 01 tampered packet, bits3-4 == 01 the entropy source fails during the operation; kind 0-17 C API, 18-21 C++ wrappers, 22 masked key toolkit 23 copies from shared states/reinit variants/hex codec/bare state 24 PRNG reseed+save+load)',
 }
